@@ -418,7 +418,7 @@ def strip(ann):
     def back(mo):
         tag = mo.group(1)
         return '' if tag == '-' else base64.b64decode(tag).decode()
-    return re.sub(r'/\*<cqv (\S+)>\*/.*?/\*</cqv>\*/', back, ann, flags=re.S)
+    return re.sub(r'/\*<cqv ([A-Za-z0-9+/=-]+)>\*/.*?/\*</cqv>\*/', back, ann, flags=re.S)
 
 
 def main():
